@@ -109,6 +109,7 @@ def parse_contracts(path):
     cts, allows, cur = {}, [], None
     extra_stubs = {}
     doms = {}
+    copies = {}
     for ln in open(path):
         ln = ln.strip()
         if not ln.startswith('//@'):
@@ -116,11 +117,14 @@ def parse_contracts(path):
         body = ln[3:].strip()
         if body.startswith('assume func '):
             name = body[len('assume func '):].split()[0]
-            cur = cts.setdefault(name.split('.')[-1], {'reads': [], 'writes': [], 'requires': []})
+            cur = cts.setdefault(name.split('.')[-1], {'reads': [], 'writes': [], 'requires': [], 'ensures': []})
         elif body.startswith('asm_stub '):
             m = re.match(r'^asm_stub (\w+)\(([^)]*)\)\s*(\w*)', body)
             if m:
                 extra_stubs[m.group(1)] = parse_sig(m.group(1), m.group(2), m.group(3))
+        elif body.startswith('asm_copy '):
+            f = body.split()
+            copies[f[1]] = (f[2], f[3], f[4])
         elif body.startswith('asm_dom '):
             f = body.split()
             doms[f[1]] = f[2]
@@ -130,10 +134,13 @@ def parse_contracts(path):
         elif cur is not None and body.startswith('requires'):
             e = body.split(':', 1)[1].strip() if ':' in body else body[len('requires'):].strip()
             cur['requires'].append(e)
+        elif cur is not None and body.startswith('ensures'):
+            e = body.split(':', 1)[1].strip() if ':' in body else body[len('ensures'):].strip()
+            cur['ensures'].append(e)
         elif cur is not None and body.startswith('assigns'):
             for m in re.finditer(r'mem\((\w+),\s*([^()]*(?:\([^()]*\)[^()]*)*)\)', body):
                 cur['writes'].append((m.group(1), m.group(2).strip()))
-    return cts, allows, extra_stubs, doms
+    return cts, allows, extra_stubs, doms, copies
 
 class ExprParser:
     """tiny parser for contract length expressions: ints, names, len(x), + - *, comparisons, &&"""
@@ -153,15 +160,16 @@ class ExprParser:
         return a
     def conj(self):
         a = self.cmp()
-        while self.peek() == '&&':
-            self.next(); a = z3.And(a, self.cmp())
+        while self.peek() in ('&&', '||'):
+            t = self.next(); b = self.cmp()
+            a = z3.And(a, b) if t == '&&' else z3.Or(a, b)
         return a
     def cmp(self):
         a = self.add()
         t = self.peek()
         if t in ('>=', '<=', '==', '!=', '<', '>'):
             self.next(); b = self.add()
-            return {'>=': a >= b, '<=': a <= b, '==': a == b, '!=': a != b, '<': a < b, '>': a > b}[t]
+            return {'>=': lambda: a >= b, '<=': lambda: a <= b, '==': lambda: a == b, '!=': lambda: a != b, '<': lambda: a < b, '>': lambda: a > b}[t]()
         return a
     def add(self):
         a = self.mul()
@@ -179,7 +187,7 @@ class ExprParser:
             e = self.impl(); self.next(); return e
         if t.isdigit():
             return z3.IntVal(int(t))
-        if t in ('len', 'span') and self.peek() == '(':
+        if t in ('len', 'span', 'cap') and self.peek() == '(':
             self.next(); n = self.next(); self.next()
             return self.syms[t + ':' + n]
         return self.syms['int:' + t]
@@ -197,8 +205,8 @@ WIDTH = {'MOVQ': 8, 'MOVL': 4, 'MOVW': 2, 'MOVB': 1, 'MOVBLZX': 1, 'MOVWLZX': 2,
          'ADDL': 4, 'SUBL': 4, 'CMPL': 4, 'ORW': 2, 'XORW': 2}
 
 class Val:
-    __slots__ = ('e', 't', 'ro')    # z3 Int expression, taint (bool), address inside a RODATA symbol
-    def __init__(self, e, t=False, ro=False): self.e, self.t, self.ro = e, t, ro
+    __slots__ = ('e', 't', 'ro', 'prov')    # z3 Int expression, taint (bool), address inside a RODATA symbol, (address, width) it was loaded from
+    def __init__(self, e, t=False, ro=False, prov=None): self.e, self.t, self.ro, self.prov = e, t, ro, prov
 
 class Result:
     def __init__(self):
@@ -206,10 +214,13 @@ class Result:
         self.by_kind = {}; self.ret_taint = {}
 
 class Machine:
-    def __init__(self, name, ins, stub, ct, allows, rodata, res, timeout_ms=10000, taint_guess=None, arch='amd64', dom_ptr=None):
+    def __init__(self, name, ins, stub, ct, allows, rodata, res, timeout_ms=10000, taint_guess=None, arch='amd64', dom_ptr=None, copy=None):
         self.dom_ptr = dom_ptr
+        self.copy = copy
         self.arch = arch
-        self.GPR = GPR_AMD64 if arch == 'amd64' else GPR_ARM64
+        self.GPR = list(GPR_AMD64 if arch == 'amd64' else GPR_ARM64)
+        if copy:
+            self.GPR.append('GC')     # ghost cursor: number of bytes copied so far
         self.fpadj = 8 if arch == 'amd64' else 0
         self.name, self.ins, self.stub, self.ct, self.allows, self.rodata, self.res = name, ins, stub, ct, allows, rodata, res
         self.idx = {i.pc: k for k, i in enumerate(ins)}
@@ -236,7 +247,7 @@ class Machine:
             if kind == 'slice':
                 p, l, c = z3.Int('ptr_' + n), z3.Int('len_' + n), z3.Int('cap_' + n)
                 self.arg_at[off] = p; self.arg_at[off + 8] = l; self.arg_at[off + 16] = c
-                S['len:' + n] = l; S['ptr:' + n] = p
+                S['len:' + n] = l; S['ptr:' + n] = p; S['cap:' + n] = c
                 self.entry_facts += [l >= 0, l <= c, c <= 2 ** 48]
                 self.regions.append(('slice ' + n, p, l * esz, False, False))
                 S['esz:' + n] = esz
@@ -423,6 +434,8 @@ class Machine:
             self.res.obligations += 1
             self.res.failures.append({'routine': self.name, 'kind': 'dom', 'at': self.ins[0].line, 'pc': 0, 'instruction': '', 'what': 'no unique verdict branch found', 'verdict': 'unknown', 'model': ''})
         init = {'regs': {r: Val(self.fresh('init_' + r)) for r in self.GPR}, 'pc': [], 'flags': None, 'kmask': {}}
+        if self.copy:
+            init['regs']['GC'] = Val(z3.IntVal(0))
         self.loop_entry = {}
         self.sweep({0: [init]}, 0, len(ins) - 1, None)
         return self.res
@@ -504,6 +517,12 @@ class Machine:
             if base in ('CMPQ', 'CMPL', 'CMPB', 'CMPW', 'TESTQ') or base in JCC or base == 'JMP':
                 continue
             if base.startswith('K'):
+                continue
+            if self.copy and base in ('MOVQ', 'MOVL', 'MOVW', 'MOVB') and '(' in dst and not dst.endswith('(FP)'):
+                if k in inner:
+                    havoc.add('GC')
+                else:
+                    delta['GC'] = delta.get('GC', 0) + WIDTH[base]
                 continue
             if self.is_reg(dst):
                 r = SUB.get(dst, dst)
@@ -702,6 +721,8 @@ class Machine:
             return ns
         base = op.split('.')[0]
         if op == 'RET':
+            if self.copy:
+                self.check(st, 'copy', i, regs['GC'].e == self.syms['int:' + self.copy[2]], 'the routine returns before exactly %s bytes have been copied' % self.copy[2])
             return []
         if op == 'JMP':
             return [(self.idx[int(a[0])], st)]
@@ -728,9 +749,13 @@ class Machine:
             src, dst = a[0], a[1]
             if self.is_reg(dst):
                 v = self.src_val(st, i, src, w)
+                pmem = self.parse_mem(st, src) if ('(' in src and not src.startswith('$')) else None
+                prov = (pmem[1].e, w) if (pmem and pmem[0] == 'mem') else None
                 if w < 8 and not z3.is_int_value(v.e):
                     nv = self.fresh('z')
-                    return [(nxt, setreg(dst, Val(nv, v.t), [nv >= 0, nv < 2 ** (8 * w)]))]
+                    return [(nxt, setreg(dst, Val(nv, v.t, False, prov), [nv >= 0, nv < 2 ** (8 * w)]))]
+                if prov:
+                    v = Val(v.e, v.t, v.ro, prov)
                 return [(nxt, setreg(dst, v))]
             if self.is_vec(dst) or self.is_k(dst):
                 self.src_val(st, i, src, w)
@@ -739,6 +764,14 @@ class Machine:
             if pm and pm[0] == 'fp':
                 v = self.src_val(st, i, src, w)
                 self.res.ret_taint[self.name] = self.res.ret_taint.get(self.name, False) or v.t
+                for en in (self.ct['ensures'] if self.ct else []):
+                    if 'result' not in en or 'forall' in en or 'mem(' in en:
+                        continue
+                    try:
+                        goal = ExprParser(en, dict(self.syms, **{'int:result': v.e})).parse()
+                    except Exception as ex:
+                        self.res.notes.append('%s: ensures clause not understood: %s' % (self.name, en)); continue
+                    self.check(st, 'result', i, goal, 'returned value violates: ' + en)
                 if self.dom_ptr and self.pre_verdict is not None:
                     if k in self.pre_verdict:
                         self.check(st, 'dom', i, v.e == 0, 'a result other than 0 is stored on a path that does not pass the tag-match side of the verdict branch')
@@ -748,6 +781,15 @@ class Machine:
             if pm:
                 self.src_val(st, i, src, w)
                 self.access(st, i, pm[1], w, True)
+                if self.copy:
+                    gc = regs['GC'].e
+                    pv = self.reg(st, src).prov if self.is_reg(src) else None
+                    if pv is None:
+                        self.check(st, 'copy', i, z3.BoolVal(False), 'stored value was not loaded from the source buffer')
+                    else:
+                        goal = z3.And(pm[1].e == self.syms['ptr:' + self.copy[0]] + gc, pv[0] == self.syms['ptr:' + self.copy[1]] + gc, z3.BoolVal(pv[1] == w))
+                        self.check(st, 'copy', i, goal, 'store is not the next %d bytes of the copy (destination offset = source offset = bytes copied so far)' % w)
+                    return [(nxt, setreg('GC', Val(gc + w)))]
                 return [(nxt, st)]
         if base in ('ADDQ', 'SUBQ'):
             src, dst = a[0], a[1]
@@ -1057,7 +1099,7 @@ def main():
     kinds = set(args.kinds.split(','))
     here = os.path.dirname(os.path.dirname(os.path.abspath(__file__)))
     stubs = go_stubs(args.repo, args.arch)
-    cts, allows, extra_stubs, doms = parse_contracts(args.contracts or os.path.join(here, 'spec', 'asm_%s.contracts' % args.arch))
+    cts, allows, extra_stubs, doms, copies = parse_contracts(args.contracts or os.path.join(here, 'spec', 'asm_%s.contracts' % args.arch))
     for k_, v_ in extra_stubs.items():
         stubs.setdefault(k_, v_)
     rod = rodata_sizes(args.repo, args.arch)
@@ -1084,7 +1126,7 @@ def main():
                 guess = {}
                 for _round in range(6):
                     sub = Result()
-                    m = Machine(name, ins, stubs[name], cts.get(name), allows, rod, sub, taint_guess=guess, arch=args.arch, dom_ptr=doms.get(name))
+                    m = Machine(name, ins, stubs[name], cts.get(name), allows, rod, sub, taint_guess=guess, arch=args.arch, dom_ptr=doms.get(name), copy=copies.get(name))
                     m.run()
                     if not m.rerun:
                         break
@@ -1115,7 +1157,7 @@ def main():
     seen_known = set()
     # replay of refuted mem/frame obligations on the real code: every pointer argument against an inaccessible page
     replay = {}
-    bad = sorted(set(f['routine'] for f in fails if f['kind'] in ('mem', 'frame', 'dom')))
+    bad = sorted(set(f['routine'] for f in fails if f['kind'] in ('mem', 'frame', 'dom', 'copy', 'result')))
     if bad and args.arch == 'amd64' and not args.no_replay:
         env = dict(os.environ, VERIF_FUNCS=','.join(bad), VERIF_TIMEOUT='120')
         try:
